@@ -187,6 +187,13 @@ theorem keyed_no_cross_after_timeout (cfg : Cfg) (b : Nat) (evs : List Ev) (p q1
     omega
   rcases (hr.2 hall).1 with ho | ho <;> rw [ho] at hd <;> simp at hd
 
+/-- **A request whose transmission raises leaves no waiter behind**: only the failing caller is
+    affected (it gets the exception); nothing is sent, nobody completes.  All theorems of this
+    file hold for histories that contain failed sends, so later requests are matched as ever. -/
+theorem keyed_failed_send (cfg : Cfg) (b : Nat) (evs : List Ev) (p q : Trace) (o : List Out)
+    (h : ktrace cfg b evs = p ++ (.sendFail, o) :: q) : o = [.sendErr] :=
+  (kinv_run cfg b evs).good p _ o q h
+
 /-! ## plain HTTP: FIFO matching -/
 
 /-- **A response goes to the oldest waiting request, or to nobody**: exactly one output per
@@ -215,6 +222,28 @@ theorem fifo_timeout_error (evs : List Ev) (p q : Trace) (r : Nat) (o : List Out
     (h : ftrace evs = p ++ (.timeout r, o) :: q) :
     (Waiting (outs p) r → o = [.timeoutErr r]) ∧ (¬ Waiting (outs p) r → o = []) :=
   (finv_run evs).good p _ o q h
+
+theorem ftrace_failed_send_gen (evs : List Ev) : ∀ s : FState,
+    (runT fstep s evs).filter (fun x => x.1 != Ev.sendFail) =
+      runT fstep s (evs.filter fun e => e != Ev.sendFail) := by
+  induction evs with
+  | nil => intro s; rfl
+  | cons e es ih =>
+    intro s
+    by_cases he : e = Ev.sendFail
+    · subst he
+      simp only [runT, List.filter, bne_self_eq_false]
+      exact ih _
+    · have hb : (e != Ev.sendFail) = true := by simpa using he
+      simp only [runT, List.filter, hb]
+      rw [ih]
+
+/-- **plain HTTP: a failed send allocates nothing that stays.**  Erasing the failed sends from a
+    history changes no other step: every other event produces exactly the same outputs (the
+    order matching is not shifted by a request that was never written). -/
+theorem fifo_failed_send_transparent (evs : List Ev) :
+    (ftrace evs).filter (fun x => x.1 != Ev.sendFail) = ftrace (evs.filter fun e => e != Ev.sendFail) :=
+  ftrace_failed_send_gen evs finit
 
 /-- The full-strength statement for plain HTTP ("every response is returned only to the request
     it answers — the j-th response of the device answers the j-th request — even when requests
@@ -288,6 +317,12 @@ example : ftrace [.send, .send, .recv none 0, .timeout 1, .recv none 1, .send, .
        (.timeout 1, [.timeoutErr 1]), (.recv none 1, [.drop none 1]), (.send, [.sent 2 2]),
        (.send, [.sent 3 3]), (.timeout 3, [.timeoutErr 3]), (.recv none 2, [.deliver 2 none 2]),
        (.recv none 3, [.drop none 3])] := by decide
+
+/-- a failed send between pipelined requests does not shift the order matching -/
+example : ftrace [.send, .sendFail, .send, .send, .recv none 0, .recv none 1, .recv none 2]
+    = [(.send, [.sent 0 0]), (.sendFail, [.sendErr]), (.send, [.sent 1 1]), (.send, [.sent 2 2]),
+       (.recv none 0, [.deliver 0 none 0]), (.recv none 1, [.deliver 1 none 1]),
+       (.recv none 2, [.deliver 2 none 2])] := by decide
 
 /-- … and excludes exactly the D9 shape -/
 example : QuietFrom tinit [.send, .timeout 0, .send, .recv none 0] = false := by decide
